@@ -185,6 +185,16 @@ static void runCase(const std::string& mode, const std::string& choiceTxt, const
         if (verbose) { std::string t; dumpObject(t, s1); printf("%s", t.c_str()); }
         out.outcome = diffs.empty() ? "match" : "differs"; return;
     }
+    if (mode == "c14") {   // saving a LOADED object is pure and repeatable; the file digest goes to the transcript for the heap-perturbation join
+        WSnap before; before.o = s1; std::string t0; dumpObject(t0, s1);
+        std::string pa = dir + "/c14a.c3d", pb = dir + "/c14b.c3d";
+        oc = guarded([&] { G1->write(pa); }, &what); if (oc != OK) { out.outcome = "save-throws"; return; }
+        std::string t1; dumpObject(t1, snapObject(*G1)); if (t1 != t0) out.viol.push_back({"C14|save_changed_object/loaded", "object differs after write()"});
+        oc = guarded([&] { G1->write(pb); }, &what); if (oc != OK) { out.viol.push_back({"C14|second_save_throws/loaded", what}); return; }
+        std::string ba, bb; readAll(pa, ba); readAll(pb, bb);
+        if (ba != bb) { size_t off = 0; while (off < ba.size() && off < bb.size() && ba[off] == bb[off]) ++off; out.viol.push_back({std::string("C14|two_saves_differ/loaded/") + (off < 512 ? "header" : "body"), "first differing offset " + S(off)}); }
+        out.transcript += " saved=" + hashStr(ba).hex(); out.outcome = out.viol.empty() ? "pure" : "differs"; return;
+    }
     // c04: load -> save -> load (-> save -> load)
     OSnap prev = s1; std::string prevBytes; std::unique_ptr<C3D> cur = std::move(G1);
     for (int g = 2; g <= generations; ++g) {
@@ -236,7 +246,7 @@ int main(int argc, char** argv) {
     double t0 = nowS(), deadline = t0 + deadlineS;
     FCrumb* crumbs = (FCrumb*)mmap(nullptr, sizeof(FCrumb) * (size_t)workers, PROT_READ | PROT_WRITE, MAP_SHARED | MAP_ANONYMOUS, -1, 0);
     std::vector<pid_t> pids((size_t)workers, 0); std::vector<uint64_t> from((size_t)workers, 0);
-    struct CrashRec { std::string kind, cs, err; }; std::vector<CrashRec> crashes; int restarts = 0;
+    struct CrashRec { std::string kind, cs, err; }; std::vector<CrashRec> crashes; int restarts = 0; size_t crashesTotal = 0;
     auto spawn = [&](int wi) {
         crumbs[wi].done = 0; fflush(stdout);
         pid_t p = fork();
@@ -305,11 +315,18 @@ int main(int argc, char** argv) {
     }
     auto jstr = [](const std::string& s) { std::string o = "\""; for (unsigned char c : s) { if (c == '"' || c == '\\') { o += '\\'; o += (char)c; } else if (c == '\n') o += "\\n"; else if (c < 32 || c > 126) { char b[8]; snprintf(b, sizeof b, "\\u%04x", c); o += b; } else o += (char)c; } return o + "\""; };
     FILE* f = out.empty() ? stdout : fopen(out.c_str(), "w");
-    fprintf(f, "{\n \"mode\": %s, \"tier\": %s, \"devs\": %d, \"cases\": %zu, \"done\": %llu, \"deadline_hit\": %s, \"restarts\": %d, \"wall_s\": %.2f, \"generations\": %d,\n", jstr(mode).c_str(), jstr(tier).c_str(), devs, cases.size(), (unsigned long long)done, done < cases.size() && crashes.size() + done < cases.size() ? "true" : "false", restarts, nowS() - t0, generations);
+    fprintf(f, "{\n \"mode\": %s, \"tier\": %s, \"devs\": %d, \"cases\": %zu, \"done\": %llu, \"deadline_hit\": %s, \"restarts\": %d, \"wall_s\": %.2f, \"generations\": %d,\n", jstr(mode).c_str(), jstr(tier).c_str(), devs, cases.size(), (unsigned long long)done, (done + (size_t)restarts < cases.size() && nowS() > deadline) ? "true" : "false", restarts, nowS() - t0, generations);
     fprintf(f, " \"outcomes\": {"); { bool first = true; for (auto& kv : outcomes) { fprintf(f, "%s%s: %llu", first ? "" : ", ", jstr(kv.first).c_str(), (unsigned long long)kv.second); first = false; } } fprintf(f, "},\n");
     fprintf(f, " \"samples\": ["); for (size_t i = 0, n = 0; i < cases.size() && n < 8; i += std::max<size_t>(1, cases.size() / 7), ++n) fprintf(f, "%s%s", n ? ", " : "", jstr(cases[i]).c_str()); fprintf(f, "],\n");
     fprintf(f, " \"violations\": [\n"); for (size_t i = 0; i < mins.size(); ++i) { auto& m = mins[i]; size_t bar = m.propField.find('|'); fprintf(f, "%s  {\"prop\": %s, \"field\": %s, \"case\": %s, \"detail\": %s, \"count\": %llu}", i ? ",\n" : "", jstr(m.propField.substr(0, bar)).c_str(), jstr(m.propField.substr(bar + 1)).c_str(), jstr(m.cs).c_str(), jstr(m.detail).c_str(), (unsigned long long)m.count); } fprintf(f, "\n ],\n");
-    fprintf(f, " \"crashes\": [\n"); for (size_t i = 0; i < crashes.size() && i < 300; ++i) fprintf(f, "%s  {\"kind\": %s, \"case\": %s, \"stderr\": %s}", i ? ",\n" : "", jstr(crashes[i].kind).c_str(), jstr(crashes[i].cs).c_str(), jstr(crashes[i].err).c_str()); fprintf(f, "\n ],\n \"crashes_total\": %zu\n}\n", crashes.size());
+    {   // keep only minimal deviation sets per crash kind (a crashing case is dropped when a subset of its choice crashes the same way)
+        std::vector<CrashRec> kept; std::vector<std::pair<std::string, gen::Choice>> keptCh; size_t total = crashes.size();
+        std::vector<std::pair<gen::Choice, CrashRec>> all; for (auto& c : crashes) all.push_back({gen::parseChoice(c.cs), c});
+        std::stable_sort(all.begin(), all.end(), [](const auto& x, const auto& y) { return x.first.size() < y.first.size(); });
+        for (auto& e : all) { bool sub = false; for (auto& k : keptCh) { if (k.first != e.second.kind) continue; bool inc = true; for (auto& kv : k.second) { auto it = e.first.find(kv.first); if (it == e.first.end() || it->second != kv.second) { inc = false; break; } } if (inc) { sub = true; break; } } if (!sub) { kept.push_back(e.second); keptCh.push_back({e.second.kind, e.first}); } }
+        crashes.swap(kept); crashesTotal = total;
+    }
+    fprintf(f, " \"crashes\": [\n"); for (size_t i = 0; i < crashes.size() && i < 300; ++i) fprintf(f, "%s  {\"kind\": %s, \"case\": %s, \"stderr\": %s}", i ? ",\n" : "", jstr(crashes[i].kind).c_str(), jstr(crashes[i].cs).c_str(), jstr(crashes[i].err).c_str()); fprintf(f, "\n ],\n \"crashes_total\": %zu\n}\n", crashesTotal);
     if (f != stdout) fclose(f);
     return 0;
 }
